@@ -16,7 +16,7 @@ RULE = (
     "constructor; distinct = distinct (node names, edge set); non-trivial = every case (accepted: closure+order contract "
     "evaluated; refused: reference confirms a cycle/self-loop/unknown/isolated node)"
 )
-REQUIRED = {"contract_evaluations": 1000, "accepted": 1000, "refused": 1000, "model_graphs": 10, "incremental_equal": 30, "listing_checks": 1000, "case_colliding_namings": 200}
+REQUIRED = {"contract_evaluations": 1000, "accepted": 1000, "refused": 1000, "model_graphs": 10, "incremental_equal": 30, "listing_checks": 1000, "mappings_in_different_key_orders": 300, "case_colliding_namings": 200}
 EXHAUSTIVE = {"quick": True, "thorough": True}
 ASSUMPTIONS = [
     "exhaustive scopes are finite (n<=5, loop-free at n=5 in quick); beyond them graphs are sampled",
@@ -113,7 +113,12 @@ def _attempt(VariablesDAG, names, anc, ctx, case, check_determinism=True, rng=No
         variables2 = {n: variables[n] for n in perm}
         _state["attempts"] = _state.get("attempts", 0) + 1
         plain_sets = _state["attempts"] % 2 == 0  # the dependencies written as ordinary (mutable) sets: same graph
-        d_anc2 = {n: (set if plain_sets else frozenset)(sorted(anc[n], reverse=True)) for n in perm}
+        # the two mappings of the explicit constructor need not be written in the same key order
+        perm_e = list(perm)
+        if _state["attempts"] % 3 == 0:
+            perm_e = perm_e[::-1] if rng is None else list(rng.permutation(perm_e))
+            ctx.count("mappings_in_different_key_orders")
+        d_anc2 = {n: (set if plain_sets else frozenset)(sorted(anc[n], reverse=True)) for n in perm_e}
         try:
             dag2 = VariablesDAG(variables2, direct_ancestors=d_anc2)
             if plain_sets:
